@@ -1645,10 +1645,19 @@ impl<T: PPGEvaluatorStrategy> PPGEvaluator<T> {
                             .to_string(),
                     ));
                 }
-                JobState::Output(JobStateOutput::NotReady(vs))
-                | JobState::Ephemeral(JobStateEphemeral::NotReady(vs)) => match vs {
+                JobState::Output(JobStateOutput::NotReady(vs)) => match vs {
                     ValidationStatus::Unknown | ValidationStatus::Invalidated => return Ok(false),
                     ValidationStatus::Validated => {}
+                },
+                JobState::Ephemeral(JobStateEphemeral::NotReady(vs)) => match vs {
+                    ValidationStatus::Unknown | ValidationStatus::Invalidated => return Ok(false),
+                    ValidationStatus::Validated => {
+                        // not decided itself: only fine if nothing below it can still require it
+                        match Self::downstream_requirement_status(dag, jobs, downstream_idx)? {
+                            Required::No => {}
+                            Required::Yes | Required::Unknown => return Ok(false),
+                        }
+                    }
                 },
                 JobState::Output(JobStateOutput::FinishedUpstreamFailure)
                 | JobState::Ephemeral(JobStateEphemeral::FinishedUpstreamFailure)
@@ -2278,10 +2287,18 @@ impl<T: PPGEvaluatorStrategy> PPGEvaluator<T> {
                 Required::Unknown => return Ok(Required::Unknown),
                 Required::Yes => return Ok(Required::Yes),
                 Required::No => match jobs[downstream_idx].state {
-                    JobState::Output(JobStateOutput::NotReady(ValidationStatus::Validated))
-                    | JobState::Ephemeral(JobStateEphemeral::NotReady(
+                    JobState::Output(JobStateOutput::NotReady(ValidationStatus::Validated)) => {}
+                    JobState::Ephemeral(JobStateEphemeral::NotReady(
                         ValidationStatus::Validated,
-                    )) => {}
+                    )) => {
+                        // a validated ephemeral that is still waiting (for us) may yet be required
+                        // by its own downstreams - and would then need our output.
+                        match Self::downstream_requirement_status(dag, jobs, downstream_idx)? {
+                            Required::Yes => return Ok(Required::Yes),
+                            Required::Unknown => had_unknown = true,
+                            Required::No => {}
+                        }
+                    }
 
                     JobState::Output(JobStateOutput::NotReady(ValidationStatus::Invalidated)) => {
                         error!("\tRequired::Yes");
